@@ -227,45 +227,66 @@ class Runner:
         return p.returncode, p.stdout.decode("utf8", "replace"), p.stderr.decode("utf8", "replace")
 
 
-LAYOUTS = ("flag", "discover-yml", "discover-yaml", "abs", "stale-outfile")
+def layout_paths(case, idx, R):
+    """Concretise the layout record exported by TLC: directories, the v2 file, argv, and the location ids."""
+    lay = case["lay"]
+    proj, deep, legacy, absdir = R / "proj", R / "proj" / "sub" / "deeper", R / "legacy", R / "absout"
+    for x in (proj, deep, legacy, absdir):
+        x.mkdir(parents=True, exist_ok=True)
+    cfgdir, cwd = {"same": (proj, proj), "child": (proj, deep), "sibling": (legacy, proj)}[lay["cwd"]]
+    if lay["cfg"] == "discover":
+        name = ".mockery.yaml" if idx % 2 == 0 else ".mockery.yml"
+    else:
+        name = "v2 conf.yml" if idx % 2 == 0 else ".mockery.yaml"
+    inp = cfgdir / name
+    args = ["migrate"]
+    if lay["cfg"] == "rel":
+        args += ["--config", os.path.relpath(inp, cwd)]
+    elif lay["cfg"] == "abs":
+        args += ["--config", str(inp)]
+    loc = case["outloc"]
+    base, _, rel = loc.partition(":")
+    rel = rel.replace("<input base name>", name)
+    outp = (cwd / rel) if base == "cwd" else (absdir / rel)
+    if lay["out"] == "rel":
+        (cwd / "out").mkdir(exist_ok=True)
+        args += ["--outfile", rel]
+    elif lay["out"] == "samebase":
+        args += ["--outfile", name]
+    elif lay["out"] == "abs":
+        args += ["--outfile", str(outp)]
+    return cwd, inp, outp, args
 
 
-def replay_case(ctx, run, idx, case, style=None, layout=None):
-    d = ctx.scratch / "cases" / f"c{idx}-{style or 'x'}"
-    d.mkdir(parents=True)
-    (d / "go.mod").write_text("module example.com/w\n\ngo 1.23\n")
+def replay_case(ctx, run, idx, case, style=None):
+    R = ctx.scratch / "cases" / f"c{idx}-{style or 'x'}"
+    R.mkdir(parents=True)
+    (R / "go.mod").write_text("module example.com/w\n\ngo 1.23\n")
     style = style or ("json" if idx % 2 == 0 else "yaml")
-    layout = layout or LAYOUTS[idx % len(LAYOUTS)]
+    lay = case["lay"]
     doc = build_v2(case)
     if case["bad"] != "none":
         doc = spoil(case, doc)
     raw = dump(doc, style)
-    args = ["migrate"]
-    if layout in ("flag", "stale-outfile"):
-        inp, outp = d / "v2 conf.yml", d / "out" / "v3.yml"
-        (d / "out").mkdir()
-        args += ["--config", "v2 conf.yml", "--outfile", "out/v3.yml"]
-        if layout == "stale-outfile":
-            outp.write_text("# stale\n" + "stale-key: [" + "x" * 20000 + "]\n")
-    elif layout == "discover-yml":
-        inp, outp = d / ".mockery.yml", d / ".mockery_v3.yml"
-    elif layout == "discover-yaml":
-        inp, outp = d / ".mockery.yaml", d / ".mockery_v3.yml"
-    else:
-        inp, outp = d / "in.yml", d / "abs-out.yml"
-        args += ["--config", str(inp), "--outfile", str(outp)]
+    cwd, inp, outp, args = layout_paths(case, idx, R)
     inp.write_bytes(raw)
-    others_before = tree_hash(d, skip=(os.path.relpath(outp, d),))
+    if lay["stale"]:
+        outp.write_text("# stale\n" + "stale-key: [" + "x" * 20000 + "]\n")
+    before = tree_hash(R)
     h0 = sha(inp.read_bytes())
-    code, out, err = run.mockery(d, args)
-    h1 = sha(inp.read_bytes()) if inp.exists() else "gone"
-    others_after = tree_hash(d, skip=(os.path.relpath(outp, d),))
+    code, out, err = run.mockery(cwd, args)
+    h1 = sha(inp.read_bytes()) if inp.is_file() else "gone"
+    after = tree_hash(R)
+    # every file created / modified / removed, as location ids
+    rin, rout = os.path.relpath(inp, R), os.path.relpath(outp, R)
+    changed = []
+    for pth in sorted(set(before) | set(after)):
+        if before.get(pth) != after.get(pth):
+            changed.append("input" if pth == rin else case["outloc"] if pth == rout else "other:" + pth)
     panic = bool(PANIC_RE.search(err) or PANIC_RE.search(out))
-    wrote = outp.is_file()
-    if layout == "stale-outfile" and wrote and outp.read_bytes().startswith(b"# stale"):
-        wrote = False
+    wrote = outp.is_file() and not (lay["stale"] and outp.read_bytes().startswith(b"# stale"))
     v3tree, v3err = {}, None
-    if outp.is_file() and code == 0:
+    if outp.is_file() and code == 0 and wrote:
         try:
             y = yaml.safe_load(outp.read_bytes().decode("utf8"))
             v3tree = project_tree(y, case)
@@ -273,20 +294,20 @@ def replay_case(ctx, run, idx, case, style=None, layout=None):
             v3tree = {"<v3 file unreadable: %s>" % type(e).__name__: {}}
             v3err = str(e)[:300]
     v2canon = {L: {k: canon(json.loads(t)) for k, t in fn(m).items()} for L, m in case["v2"].items()}
-    events = [{"op": "case", "case": idx, "v2": v2canon, "decodable": case["bad"] == "none"},
-              {"op": "migrate", "case": idx, "exit": code, "panic": panic, "in_before": h0,
-               "in_after": h1 if others_after == others_before else h1 + "+other-files-changed",
-               "wrote": bool(wrote), "v3": v3tree}]
-    ob = {"migrate": {"exit": code, "panic": panic, "input_unchanged": h0 == h1 and others_after == others_before,
+    events = [{"op": "case", "case": idx, "v2": v2canon, "decodable": case["bad"] == "none", "lay": lay},
+              {"op": "migrate", "case": idx, "exit": code, "panic": panic, "in_before": h0, "in_after": h1,
+               "wrote": bool(wrote), "changed": changed, "v3": v3tree}]
+    ob = {"migrate": {"exit": code, "panic": panic, "input_unchanged": h0 == h1, "changed": changed,
                       "wrote": bool(wrote), "v3": v3tree, "v3err": v3err, "tail": (err + out)[-500:]},
-          "style": style, "layout": layout, "v2_text": raw.decode("utf8", "replace")[:4000],
+          "style": style, "argv": args, "cwd": os.path.relpath(cwd, R), "input": rin, "expected_output": rout,
+          "v2_text": raw.decode("utf8", "replace")[:4000],
           "v3_text": outp.read_text(errors="replace")[:4000] if outp.is_file() else None}
-    if case["bad"] == "none" and code == 0 and outp.is_file():
+    if case["bad"] == "none" and code == 0 and wrote:
         # load it the way a user would after renaming it: found by search, no --config flag (a flag would
         # override the file's own `config` value, CLI > file)
-        ld = d / "load"
+        ld = R / "load"
         ld.mkdir()
-        shutil.copy(d / "go.mod", ld / "go.mod")
+        shutil.copy(R / "go.mod", ld / "go.mod")
         shutil.copy(outp, ld / ".mockery.yml")
         lcode, lout, lerr = run.mockery(ld, ["showconfig"])
         lpanic = bool(PANIC_RE.search(lerr))
@@ -299,7 +320,7 @@ def replay_case(ctx, run, idx, case, style=None, layout=None):
         events.append({"op": "load", "case": idx, "exit": lcode, "panic": lpanic, "eff": eff})
         ob["load"] = {"exit": lcode, "panic": lpanic, "eff": eff, "tail": "\n".join(x for x in lerr.splitlines() if " DBG " not in x)[-600:]}
     if not os.environ.get("VERIF_KEEP"):
-        shutil.rmtree(d, ignore_errors=True)
+        shutil.rmtree(R, ignore_errors=True)
     return events, ob
 
 
@@ -310,12 +331,14 @@ def judge(case, ob):
     m = ob["migrate"]
     if m["panic"]:
         return {"kind": "migrate-panic"}, {}
-    if not m["input_unchanged"]:
+    if not m["input_unchanged"] or "input" in m["changed"]:
         return {"kind": "input-modified"}, {}
     if not case["ok"]:
         return None      # not a v2 file: only "no crash, input untouched" is promised
     if m["exit"] != 0:
         return {"kind": "migrate-failed"}, {}
+    if m["changed"] != [case["outloc"]]:
+        return {"kind": "files-changed", "changed": ",".join(m["changed"])[:120], "want": case["outloc"]}, {}
     if not m["wrote"]:
         return {"kind": "no-output"}, {}
     exp = {L: {"req": fn(e["req"]), "may": e["may"]} for L, e in case["expect"].items()}
@@ -349,7 +372,7 @@ def judge(case, ob):
         return {"kind": "loaded-levels", "missing": ",".join(sorted(set(exp) - set(eff))), "extra": ",".join(sorted(set(eff) - set(exp)))[:80]}, {}
     for L in sorted(exp):
         for p, t in exp[L]["req"].items():
-            if p == "_anchors":
+            if p == "_anchors" or (L == "top" and p == "config"):
                 continue
             if eff[L].get(p) != t:
                 return {"kind": "loaded-wrong-value", "level": L, "path": p}, {"want": t, "got": eff[L].get(p)}
@@ -362,6 +385,7 @@ def case_sig(case):
     odd = NAMES.get(case["nm"]["id"], "")
     top = fn(case["v2"].get("top", {}))
     return {"fam": case["fam"], "shape": case["shape"], "vi": case["vi"], "name_id": case["nm"]["id"],
+            "lay": "%s/%s/%s%s" % (case["lay"]["cwd"], case["lay"]["cfg"], case["lay"]["out"], "/stale" if case["lay"]["stale"] else ""),
             "name_class": name_class(odd) if case["nm"]["id"] != "-" else "-",
             "anchors_top": "_anchors" in top and top["_anchors"] not in ("null", "{}"),
             "keys": ",".join(keys) if len(keys) <= 3 else "%d keys" % len(keys)}
@@ -407,7 +431,7 @@ def run_replay(ctx, path):
         raise MachineryError(f"cannot read replay file {path}: {e}")
     run_ = Runner(ctx)
     (ctx.scratch / "cases").mkdir()
-    evs, ob = replay_case(ctx, run_, 0, case, style=ob0.get("style"), layout=ob0.get("layout"))
+    evs, ob = replay_case(ctx, run_, 0, case, style=ob0.get("style"))
     j = judge(case, ob)
     if j is not None:
         ctx.violation(dict(case_sig(case), **j[0]), {"case": case, "observed": ob, "difference": j[1]})
@@ -449,7 +473,7 @@ def run(ctx):
     cases += simcases
     # vacuity guards
     fams = {c["fam"] for c in cases}
-    need = {"single", "null", "pair", "levels", "shape", "names", "bad", "random"}
+    need = {"single", "style", "null", "pair", "levels", "shape", "layout", "names", "bad", "random"}
     if not need <= fams:
         raise MachineryError(f"vacuous: case families missing: {need - fams}")
     mapped_seen = {(k, L) for c in cases if c["fam"] == "single" for L, m in c["v2"].items() for k in fn(m)}
@@ -466,6 +490,12 @@ def run(ctx):
     unknown = {c["nm"]["id"] for c in cases} - set(NAMES) - {"-"}
     if unknown:
         raise MachineryError(f"name ids without a concretisation: {unknown}")
+    lays = {(c["lay"]["cwd"], c["lay"]["cfg"], c["lay"]["out"]) for c in cases}
+    if len(lays) < 29:
+        raise MachineryError(f"vacuous: only {len(lays)} of the 29 layouts (cwd x --config x --outfile) exported")
+    styles = {c["vi"] for c in cases if c["fam"] in ("style", "single", "null")}
+    if not set(range(0, 10)) <= styles:
+        raise MachineryError(f"vacuous: value styles exported: {sorted(styles)}")
     if len(cases) < 500:
         raise MachineryError(f"too few cases ({len(cases)})")
 
@@ -488,7 +518,7 @@ def run(ctx):
         j = judge(cases[i], ob)
         if j is not None and ob["style"] == "yaml" and cases[i]["bad"] == "none":
             # the YAML rendering of the INPUT may be read differently by yaml.v3 and PyYAML; JSON is unambiguous
-            evs2, ob2 = replay_case(ctx, run_, i, cases[i], style="json", layout=ob["layout"])
+            evs2, ob2 = replay_case(ctx, run_, i, cases[i], style="json")
             n_inv += len(evs2) - 1
             j2 = judge(cases[i], ob2)
             if j2 is None:
@@ -535,7 +565,7 @@ def run(ctx):
         ob = results[i][1]
         ctx.sample({"case": {k: cases[i][k] for k in ("fam", "shape", "vi", "nm", "bad")}, "v2_file": ob["v2_text"][:700],
                     "v3_file": (ob["v3_text"] or "")[:700], "migrate_exit": ob["migrate"]["exit"],
-                    "showconfig_exit": ob.get("load", {}).get("exit"), "layout": ob["layout"], "style": ob["style"]})
+                    "showconfig_exit": ob.get("load", {}).get("exit"), "argv": ob["argv"], "cwd": ob["cwd"], "style": ob["style"]})
     ctx.assumptions += [
         "small-scope: the families of spec/Migrate.tla Init (single, null, pair, levels, shape, names, bad) exhaustively, random subsets by simulation",
         "values are markers unique per (key, level) in two styles (plain / YAML-significant text, both polarities of booleans) plus explicit null",
